@@ -139,10 +139,13 @@ class DataCollection:
 
     def stop(self):
         self.logger.info(f"Stopping collection: {self.name} -> {self.save_path}")
-        # Check if we are currently writing some data
-        if self.write_to_disk.is_set():
-            while not self.write_finished.wait(0.250):
-                pass
+        # Wait until a pending or running write has completed. The request flag itself
+        # is the condition: write_finished may still be set from the previous write when
+        # a new write was triggered right after the writer cleared the request.
+        while self.write_to_disk.is_set():
+            if self.write_finished.wait(0.250) and self.write_to_disk.is_set():
+                # stale notification of the previous write
+                self.write_finished.clear()
 
         self.write_to_disk.clear()
         self.write_finished.clear()
